@@ -56,15 +56,28 @@ IsWs(c)        == c \in {32, 9, 10, 13}
 
 Classes == {"char", "namestart", "namechar", "pubid", "encname"}
 
+\* Char as it applies inside the constructs that are made of Chars: the characters that can be written literally
+\* (and come back unchanged) as character data [14], in an attribute value [10], a comment [15], PI data [16]
+\* and a CDATA section [20] are the Chars except the ones the construct gives a meaning to.
+CharRoles == {"char@text", "char@attr", "char@comment", "char@pi", "char@cdata"}
+RoleExcept(cls) ==
+  CASE cls = "char@text"    -> {60, 38}               \* < &
+    [] cls = "char@attr"    -> {60, 38, 34}           \* < & "   (the value is written in double quotes)
+    [] cls = "char@comment" -> {}                     \* a single '-' between two other characters is fine
+    [] cls = "char@pi"      -> {}
+    [] cls = "char@cdata"   -> {}
+
 InClass(cls, c) ==
-  CASE cls = "char"      -> IsChar(c)
+  CASE cls \in CharRoles -> IsChar(c) /\ c \notin RoleExcept(cls)
+    [] cls = "char"      -> IsChar(c)
     [] cls = "namestart" -> IsNameStart(c)
     [] cls = "namechar"  -> IsNameChar(c)
     [] cls = "pubid"     -> IsPubid(c)
     [] cls = "encname"   -> IsEncName(c)
 
 RangesOf(cls) ==
-  CASE cls = "char"      -> CharRanges
+  CASE cls \in CharRoles -> CharRanges \cup { <<x, x>> : x \in RoleExcept(cls) }
+    [] cls = "char"      -> CharRanges
     [] cls = "namestart" -> NameStartRanges
     [] cls = "namechar"  -> NameStartRanges \cup NameExtraRanges
     [] cls = "pubid"     -> PubidRanges
